@@ -1,2 +1,177 @@
-(* C10 — stub *)
-From Zap Require Import Base.Wire C10.Model.
+From Coq Require Import List ZArith Bool Lia.
+From Coq.Strings Require Import Byte.
+Import ListNotations.
+From Zap Require Import Base.Wire Enc.Bytes Enc.Fields Enc.JsonEnc Enc.JsonParse Enc.WireEnc Enc.JsonAst Enc.Wf
+  Enc.Refine4 Enc.Parse3 Enc.Parse4 C02.Model C10.Model.
+
+(* ================= field failures: locality on the tree semantics ================= *)
+Section F.
+Variable c : cfg.
+
+(* a marshaler that returns an error contributes exactly what it contributes when it returns nil,
+   followed by one '<key>Error' string member *)
+Lemma obj_error k calls msg o :
+  ev_fld c (FObject k (Obj calls (Some msg))) o = push (ev_fld c (FObject k (Obj calls None)) o) (str_m (k ++ s_Error) msg).
+Proof. rewrite !ev_fld_obj, !ev_obj_eq. reflexivity. Qed.
+Lemma inline_error calls msg o :
+  ev_fld c (FInline (Obj calls (Some msg))) o = push (ev_fld c (FInline (Obj calls None)) o) (str_m s_Error msg).
+Proof. rewrite !ev_fld_inl. reflexivity. Qed.
+Lemma arr_error k es msg o :
+  snd (ev_elems' c false es) = None ->
+  ev_fld c (FArray k (Arr es (Some msg) false)) o = push (ev_fld c (FArray k (Arr es None false)) o) (str_m (k ++ s_Error) msg).
+Proof.
+  intros H. rewrite !ev_fld_arr, !ev_arr_eq. destruct (ev_elems' c false es) as [vs early]. cbn [snd] in H. subst early. reflexivity.
+Qed.
+(* a Stringer that panics is replaced by the error member; a nil receiver prints "<nil>" *)
+Lemma stringer_panic k m o : ev_fld c (FStringer k (OPanic m)) o = push o (str_m (k ++ s_Error) (panic_err m)).
+Proof. reflexivity. Qed.
+Lemma stringer_nil k o : ev_fld c (FStringer k ONilPtr) o = push o (str_m k s_nilptr).
+Proof. reflexivity. Qed.
+(* an error value whose Error() panics / is a nil pointer *)
+Lemma error_panic k m v g o : ev_fld c (FError k (ErrV (OPanic m) v g)) o = push o (str_m (k ++ s_Error) (panic_err m)).
+Proof. reflexivity. Qed.
+Lemma error_nil k v g o : ev_fld c (FError k (ErrV ONilPtr v g)) o = push o (str_m k s_nilptr).
+Proof. reflexivity. Qed.
+(* a value encoding/json rejects: nothing is written for the key, the error member appears *)
+Lemma reflect_fail k m o : ev_fld c (FReflect k (RErr m)) o = push o (str_m (k ++ s_Error) m).
+Proof. reflexivity. Qed.
+
+(* siblings: the fields before and after are evaluated exactly as without the failing field *)
+Lemma siblings fs1 f fs2 o : ev_flds c (fs1 ++ f :: fs2) o = ev_flds c fs2 (ev_fld c f (ev_flds c fs1 o)).
+Proof. unfold ev_flds. rewrite fold_left_app. reflexivity. Qed.
+(* a push never disturbs what is already there: every member present before a field is still there, in place *)
+Lemma push_keeps o m : frames (push o m) = frames o /\ exists tail, cur (push o m) = cur o ++ tail.
+Proof. split; [reflexivity|]. eexists. reflexivity. Qed.
+End F.
+
+(* ================= sinks and cores ================= *)
+Section ScoreInd.
+  Variable P : score -> Prop.
+  Hypotheses (HL : forall id outs, P (SLeaf id outs)) (HT : forall l, Forall P l -> P (STee l)) (HW : forall c, P c -> P (SWrap c)).
+  Fixpoint score_ind' (c : score) : P c :=
+    match c with
+    | SLeaf id outs => HL id outs
+    | STee l => HT l ((fix go (l : list score) : Forall P l :=
+                         match l with [] => Forall_nil _ | x :: r => Forall_cons _ (score_ind' x) (go r) end) l)
+    | SWrap c => HW c (score_ind' c)
+    end.
+End ScoreInd.
+
+Definition leaf_events (hi : bool) (k : nat) (lf : Z * list outcome1) : list ev :=
+  match werr (out_at (snd lf) k) with
+  | Some _ => [EvW (fst lf)]
+  | None => EvW (fst lf) :: (if hi then [EvS (fst lf)] else [])
+  end.
+Definition leaf_errs (k : nat) (lf : Z * list outcome1) : list bytes :=
+  match werr (out_at (snd lf) k) with Some m => [m] | None => [] end.
+
+Definition tee_write (hi : bool) (k : nat) := fix go (l : list score) : list ev * list bytes :=
+  match l with
+  | [] => ([], [])
+  | x :: r => let '(e1, m1) := core_write hi k x in let '(e2, m2) := go r in (e1 ++ e2, m1 ++ m2)
+  end.
+Definition tee_leaves := fix go (l : list score) := match l with [] => [] | x :: r => leaves x ++ go r end.
+Definition tee_accepted := fix go (l : list score) : list score := match l with [] => [] | x :: r => accepted x ++ go r end.
+
+(* Core.Write reaches every sink under the core exactly once, in order, whatever failed before *)
+Lemma core_write_spec hi k : forall c,
+  core_write hi k c = (flat_map (leaf_events hi k) (leaves c), flat_map (leaf_errs k) (leaves c)).
+Proof.
+  apply score_ind'.
+  - intros id outs. cbn [core_write leaves flat_map]. unfold leaf_events, leaf_errs. cbn [fst snd].
+    destruct (werr (out_at outs k)); now rewrite !app_nil_r.
+  - intros l Hl. change (core_write hi k (STee l)) with (tee_write hi k l). change (leaves (STee l)) with (tee_leaves l).
+    induction Hl as [|x r Hx _ IH]; [reflexivity|]. cbn [tee_write tee_leaves]. rewrite Hx, IH, !flat_map_app. reflexivity.
+  - intros c IH. exact IH.
+Qed.
+
+Lemma fold_entry hi k l : forall acc,
+  fold_left (fun acc x => let '(e, m) := core_write hi k x in (fst acc ++ e, snd acc ++ m)) l acc =
+  (fst acc ++ flat_map (fun x => fst (core_write hi k x)) l, snd acc ++ flat_map (fun x => snd (core_write hi k x)) l).
+Proof.
+  induction l as [|x r IH]; intros [a b]; cbn [fold_left flat_map fst snd]; [now rewrite !app_nil_r|].
+  destruct (core_write hi k x) as [e m] eqn:E. rewrite IH. cbn [fst snd]. now rewrite <- !app_assoc.
+Qed.
+Lemma accepted_leaves hi k : forall c,
+  flat_map (fun x => fst (core_write hi k x)) (accepted c) = flat_map (leaf_events hi k) (leaves c) /\
+  flat_map (fun x => snd (core_write hi k x)) (accepted c) = flat_map (leaf_errs k) (leaves c).
+Proof.
+  apply score_ind'.
+  - intros id outs. cbn [accepted flat_map]. rewrite (core_write_spec hi k (SLeaf id outs)). cbn [fst snd]. now rewrite !app_nil_r.
+  - intros l Hl. change (accepted (STee l)) with (tee_accepted l). change (leaves (STee l)) with (tee_leaves l).
+    induction Hl as [|x r [H1 H2] _ [I1 I2]]; [split; reflexivity|]. cbn [tee_accepted tee_leaves].
+    rewrite !flat_map_app, H1, H2, I1, I2. split; reflexivity.
+  - intros c _. cbn [accepted flat_map]. rewrite (core_write_spec hi k (SWrap c)). cbn [fst snd leaves]. now rewrite !app_nil_r.
+Qed.
+
+(* CheckedEntry.Write: every sink of every accepting core is written exactly once, in order,
+   regardless of earlier failures; all write errors are collected, in order *)
+Theorem sink_events hi k c : fst (entry_write hi k c) = spec_events hi k c.
+Proof. unfold entry_write. rewrite fold_entry. cbn [fst app]. exact (proj1 (accepted_leaves hi k c)). Qed.
+Theorem sink_errs hi k c : snd (entry_write hi k c) = spec_write_errs k c.
+Proof. unfold entry_write. rewrite fold_entry. cbn [snd app]. exact (proj2 (accepted_leaves hi k c)). Qed.
+
+(* the full statement also asks for Sync failures to be reported; ioCore.Write drops them *)
+Definition sink_full : Prop := forall hi k c, snd (entry_write hi k c) = spec_write_errs k c ++ spec_sync_errs hi k c.
+Lemma sink_full_refuted : ~ sink_full.
+Proof.
+  intros H. specialize (H true 0 (SLeaf 0 [{| werr := None; serr := Some [x53] |}])). vm_compute in H. discriminate.
+Qed.
+Fixpoint no_sync_fault (c : score) {struct c} : bool :=
+  match c with
+  | SLeaf _ outs => forallb (fun o => match serr o with Some _ => false | None => true end) outs
+  | STee l => (fix go (l : list score) := match l with [] => true | x :: r => no_sync_fault x && go r end) l
+  | SWrap c => no_sync_fault c
+  end.
+Lemma out_at_serr outs k : forallb (fun o => match serr o with Some _ => false | None => true end) outs = true ->
+  serr (out_at outs k) = None.
+Proof.
+  unfold out_at. revert k. induction outs as [|o r IH]; intros k H; [destruct k; reflexivity|].
+  cbn [forallb] in H. apply andb_true_iff in H as [H1 H2]. destruct k as [|k]; cbn [nth]; [destruct (serr o); [discriminate|reflexivity]|now apply IH].
+Qed.
+Lemma no_sync_errs hi k : forall c, no_sync_fault c = true -> spec_sync_errs hi k c = [].
+Proof.
+  intros c H. unfold spec_sync_errs. destruct hi; [|reflexivity].
+  revert c H. apply (score_ind' (fun c => no_sync_fault c = true ->
+    flat_map (fun lf => match werr (out_at (snd lf) k), serr (out_at (snd lf) k) with None, Some m => [m] | _, _ => [] end) (leaves c) = [])).
+  - intros id outs H. cbn [leaves flat_map snd]. rewrite (out_at_serr outs k H). destruct (werr _); reflexivity.
+  - intros l Hl H. change (leaves (STee l)) with (tee_leaves l).
+    induction Hl as [|x r Hx _ IH]; [reflexivity|]. cbn [no_sync_fault] in H. apply andb_true_iff in H as [H1 H2].
+    cbn [tee_leaves]. rewrite flat_map_app, (Hx H1), (IH H2). reflexivity.
+  - intros c IH H. exact (IH H).
+Qed.
+Theorem sink_reported_partial hi k c : no_sync_fault c = true ->
+  snd (entry_write hi k c) = spec_write_errs k c ++ spec_sync_errs hi k c.
+Proof. intros H. rewrite sink_errs, (no_sync_errs hi k c H). now rewrite app_nil_r. Qed.
+
+(* ================= wire level ================= *)
+From Zap Require C17.Proofs C02.Proofs.
+Definition case_ok (i : sx) : Prop :=
+  match sx_z (sx_nth i 0) with
+  | 0%Z => let e := sx_nth i 1 in
+           C02.Model.wf e = true /\ owf_ctxs (ec_ctxs (dec_case e)) /\ owf_flds (ec_fs (dec_case e)) /\
+           rend_pre (t_rend (time_val (ec_ent (dec_case e))))
+  | _ => no_sync_fault (dec_score (sx_size (sx_nth i 2)) (sx_nth i 2)) = true
+  end.
+Theorem wire_thm i : case_ok i -> spec i (model i) = true.
+Proof.
+  unfold case_ok, spec, model. destruct (sx_z (sx_nth i 0)) eqn:E.
+  - intros (Hw & Hc & Hf & Ht). pose proof (C02.Proofs.wire_line (sx_nth i 1) Hw Hc Hf Ht) as H.
+    unfold C02.Model.model in *. destruct (encode_entry _ _ _ _ _); [|discriminate H]. exact H.
+  - intros H. unfold spec_sink, model_sink. cbn [sx_nth sx_l nth]. rewrite C17.Proofs.sx_eqb_refl. cbn [andb].
+    set (c := dec_score _ _) in *. set (hi := sx_bool _). set (n := sx_n _).
+    assert (G : forall l, map (fun r : list ev * list bytes => SL [SL (map enc_ev (fst r)); SL (map SB (snd r)); SZ (if is_nil (snd r) then 0 else 1)]) (map (fun k => entry_write hi k c) l) =
+                          map (fun k => let errs := spec_write_errs k c ++ spec_sync_errs hi k c in
+                                        SL [SL (map enc_ev (spec_events hi k c)); SL (map SB errs); SZ (if is_nil errs then 0 else 1)]) l).
+    { induction l as [|k r IH]; [reflexivity|]. cbn [map]. rewrite IH. f_equal.
+      rewrite sink_events, (sink_reported_partial hi k c H). reflexivity. }
+    unfold run_sink. rewrite G. apply C17.Proofs.sx_eqb_refl.
+  - intros H. unfold spec_sink, model_sink. cbn [sx_nth sx_l nth]. rewrite C17.Proofs.sx_eqb_refl. cbn [andb].
+    set (c := dec_score _ _) in *. set (hi := sx_bool _). set (n := sx_n _).
+    assert (G : forall l, map (fun r : list ev * list bytes => SL [SL (map enc_ev (fst r)); SL (map SB (snd r)); SZ (if is_nil (snd r) then 0 else 1)]) (map (fun k => entry_write hi k c) l) =
+                          map (fun k => let errs := spec_write_errs k c ++ spec_sync_errs hi k c in
+                                        SL [SL (map enc_ev (spec_events hi k c)); SL (map SB errs); SZ (if is_nil errs then 0 else 1)]) l).
+    { induction l as [|k r IH]; [reflexivity|]. cbn [map]. rewrite IH. f_equal.
+      rewrite sink_events, (sink_reported_partial hi k c H). reflexivity. }
+    unfold run_sink. rewrite G. apply C17.Proofs.sx_eqb_refl.
+Qed.
